@@ -60,10 +60,13 @@ const (
 	pkNilMapVal
 	pkNilSlice
 	pkNilFunc
+	// panic(nil): since Go 1.21 (the harness module says go 1.23, so GODEBUG panicnil=0) recover returns a
+	// *runtime.PanicNilError, a runtime.Error like the rt-* kinds
+	pkUntypedNil
 	pkCount
 )
 
-var pkNames = []string{"string", "error-sentinel", "error-wrapped", "error-custom", "int", "struct", "pointer", "rt-nil-deref", "rt-index", "rt-nil-map", "rt-div-zero", "rt-type-assert", "typed-nil-pointer", "typed-nil-error-pointer", "typed-nil-map", "typed-nil-slice", "typed-nil-func"}
+var pkNames = []string{"string", "error-sentinel", "error-wrapped", "error-custom", "int", "struct", "pointer", "rt-nil-deref", "rt-index", "rt-nil-map", "rt-div-zero", "rt-type-assert", "typed-nil-pointer", "typed-nil-error-pointer", "typed-nil-map", "typed-nil-slice", "typed-nil-func", "untyped-nil"}
 
 type ptrErr struct{ code int }
 
@@ -118,6 +121,8 @@ func (b *body) throw() {
 	case pkNilFunc:
 		var f func()
 		panic(f)
+	case pkUntypedNil:
+		panic(nil)
 	}
 	panic("harness bug: panic kind did not panic")
 }
@@ -179,7 +184,7 @@ func samePanic(got, want any) bool {
 	return reflect.DeepEqual(got, want)
 }
 
-const rulePanic = "body drawn: returns (v,nil) / returns (v, sentinel error) where the signature has an error / panics with a drawn value (string, sentinel error, wrapped error, custom error struct, int, struct, pointer, and genuine runtime errors: nil dereference, index out of range, nil map write, integer divide by zero, failed type assertion; typed nil values: nil pointer, nil error pointer, nil map, nil slice, nil func; explicit untyped panic(nil) excluded); oracle: normal return -> Success(v) resp. Failure with THAT very error (never a panic failure); panic -> Failure whose error exposes the thrown value through Panic() (runtime errors: a runtime.Error with the same message) or, for error values, errors.Is; the body runs exactly once and nothing propagates to the caller; non-trivial iff the body panics; distinct by printed body"
+const rulePanic = "body drawn: returns (v,nil) / returns (v, sentinel error) where the signature has an error / panics with a drawn value (string, sentinel error, wrapped error, custom error struct, int, struct, pointer, and genuine runtime errors: nil dereference, index out of range, nil map write, integer divide by zero, failed type assertion; typed nil values: nil pointer, nil error pointer, nil map, nil slice, nil func; and panic(nil), which the runtime turns into a *runtime.PanicNilError under the harness module's go 1.23 semantics); oracle: normal return -> Success(v) resp. Failure with THAT very error (never a panic failure); panic -> Failure whose error exposes the thrown value through Panic() (runtime errors: a runtime.Error with the same message) or, for error values, errors.Is; the body runs exactly once and nothing propagates to the caller; non-trivial iff the body panics; distinct by printed body"
 
 // panicCheck runs one PANIC CAPTURE sub-check. run executes the library function on the body and returns the resulting Try
 // (the value is mapped to int: Unit -> the body's v).
